@@ -129,7 +129,7 @@ PROPS["C13"] = {
     "rule": "orders 0..=5, rates 0..=32, i32/i64/i128, arbitrary low-rate sequences sized to avoid overflow; contract violations in the correspondence stream",
 }
 PROPS["C05"] = {
-    "trusted_extra": ["Props/C03F.lean, Props/C04F.lean, Props/C05q.lean (QuantFl), Props/C15F.lean, Props/C15Fc.lean and Props/C15Fs.lean take the standard model of floating-point arithmetic as a hypothesis (structure FlModel u: each + - x returns exact*(1+d), |d| <= u; FlModelU adds an absolute underflow term; FlModelX: representable exact results are returned exactly; max/min exact). That IEEE binary32/64 satisfies it with u = 2^-24 / 2^-53 absent overflow is assumed (Higham, Accuracy and Stability of Numerical Algorithms, Thm 2.2), not proved; the bit-level behaviour incl. NaN/inf is tied by the fbiquad correspondence over Lean Float32/Float, which trusts the Lean runtime's float primitives to be IEEE."],
+    "trusted_extra": ["Props/C03F.lean, Props/C04F.lean, Props/C05q.lean (QuantFl), Props/C08F.lean (FlModelD / FlModelDX: with division / with the exactness law), Props/C15F.lean, Props/C15Fc.lean and Props/C15Fs.lean take the standard model of floating-point arithmetic as a hypothesis (structure FlModel u: each + - x returns exact*(1+d), |d| <= u; FlModelU adds an absolute underflow term; FlModelX: representable exact results are returned exactly; max/min exact). That IEEE binary32/64 satisfies it with u = 2^-24 / 2^-53 absent overflow is assumed (Higham, Accuracy and Stability of Numerical Algorithms, Thm 2.2), not proved; the bit-level behaviour incl. NaN/inf is tied by the fbiquad correspondence over Lean Float32/Float, which trusts the Lean runtime's float primitives to be IEEE."],
     "modules": ["C05", "C05q"],
     "families_exhaustive": ["num8_all"],
     "families": ["num"],
@@ -148,7 +148,7 @@ PROPS["C05"] = {
     "rule": "i8 macc: the complete (u, s) plane x limit pairs x e1 lattice (complete e1 range in thorough); i8 mul/div all pairs; wider types lattice + random",
 }
 PROPS["C03"] = {
-    "trusted_extra": ["Props/C03F.lean, Props/C04F.lean, Props/C05q.lean (QuantFl), Props/C15F.lean, Props/C15Fc.lean and Props/C15Fs.lean take the standard model of floating-point arithmetic as a hypothesis (structure FlModel u: each + - x returns exact*(1+d), |d| <= u; FlModelU adds an absolute underflow term; FlModelX: representable exact results are returned exactly; max/min exact). That IEEE binary32/64 satisfies it with u = 2^-24 / 2^-53 absent overflow is assumed (Higham, Accuracy and Stability of Numerical Algorithms, Thm 2.2), not proved; the bit-level behaviour incl. NaN/inf is tied by the fbiquad correspondence over Lean Float32/Float, which trusts the Lean runtime's float primitives to be IEEE."],
+    "trusted_extra": ["Props/C03F.lean, Props/C04F.lean, Props/C05q.lean (QuantFl), Props/C08F.lean (FlModelD / FlModelDX: with division / with the exactness law), Props/C15F.lean, Props/C15Fc.lean and Props/C15Fs.lean take the standard model of floating-point arithmetic as a hypothesis (structure FlModel u: each + - x returns exact*(1+d), |d| <= u; FlModelU adds an absolute underflow term; FlModelX: representable exact results are returned exactly; max/min exact). That IEEE binary32/64 satisfies it with u = 2^-24 / 2^-53 absent overflow is assumed (Higham, Accuracy and Stability of Numerical Algorithms, Thm 2.2), not proved; the bit-level behaviour incl. NaN/inf is tied by the fbiquad correspondence over Lean Float32/Float, which trusts the Lean runtime's float primitives to be IEEE."],
     "modules": ["C03", "C03F"],
     "families": ["biquad", "num", "fbiquad"],
     "n_quick": 150000, "n_thorough": 1500000,
@@ -168,7 +168,7 @@ PROPS["C03"] = {
     "rule": "all widths, N in {4,5,2}, coefficient styles (arbitrary, integrator, double integrator, identity), fed-back histories, accumulator-overflow cases",
 }
 PROPS["C04"] = {
-    "trusted_extra": ["Props/C03F.lean, Props/C04F.lean, Props/C05q.lean (QuantFl), Props/C15F.lean, Props/C15Fc.lean and Props/C15Fs.lean take the standard model of floating-point arithmetic as a hypothesis (structure FlModel u: each + - x returns exact*(1+d), |d| <= u; FlModelU adds an absolute underflow term; FlModelX: representable exact results are returned exactly; max/min exact). That IEEE binary32/64 satisfies it with u = 2^-24 / 2^-53 absent overflow is assumed (Higham, Accuracy and Stability of Numerical Algorithms, Thm 2.2), not proved; the bit-level behaviour incl. NaN/inf is tied by the fbiquad correspondence over Lean Float32/Float, which trusts the Lean runtime's float primitives to be IEEE."],
+    "trusted_extra": ["Props/C03F.lean, Props/C04F.lean, Props/C05q.lean (QuantFl), Props/C08F.lean (FlModelD / FlModelDX: with division / with the exactness law), Props/C15F.lean, Props/C15Fc.lean and Props/C15Fs.lean take the standard model of floating-point arithmetic as a hypothesis (structure FlModel u: each + - x returns exact*(1+d), |d| <= u; FlModelU adds an absolute underflow term; FlModelX: representable exact results are returned exactly; max/min exact). That IEEE binary32/64 satisfies it with u = 2^-24 / 2^-53 absent overflow is assumed (Higham, Accuracy and Stability of Numerical Algorithms, Thm 2.2), not proved; the bit-level behaviour incl. NaN/inf is tied by the fbiquad correspondence over Lean Float32/Float, which trusts the Lean runtime's float primitives to be IEEE."],
     "modules": ["C04", "C04F"],
     "families": ["biquad", "fbiquad"],
     "n_quick": 150000, "n_thorough": 1500000,
@@ -237,7 +237,7 @@ PROPS["C14"] = {
     "rule": "random f32/f64 streams cut two ways (0-length, granule, maximal and random blocks), all ten tap sets, cascade depths 0..=4, in place and separate",
 }
 PROPS["C15"] = {
-    "trusted_extra": ["Props/C03F.lean, Props/C04F.lean, Props/C05q.lean (QuantFl), Props/C15F.lean, Props/C15Fc.lean and Props/C15Fs.lean take the standard model of floating-point arithmetic as a hypothesis (structure FlModel u: each + - x returns exact*(1+d), |d| <= u; FlModelU adds an absolute underflow term; FlModelX: representable exact results are returned exactly; max/min exact). That IEEE binary32/64 satisfies it with u = 2^-24 / 2^-53 absent overflow is assumed (Higham, Accuracy and Stability of Numerical Algorithms, Thm 2.2), not proved; the bit-level behaviour incl. NaN/inf is tied by the fbiquad correspondence over Lean Float32/Float, which trusts the Lean runtime's float primitives to be IEEE."],
+    "trusted_extra": ["Props/C03F.lean, Props/C04F.lean, Props/C05q.lean (QuantFl), Props/C08F.lean (FlModelD / FlModelDX: with division / with the exactness law), Props/C15F.lean, Props/C15Fc.lean and Props/C15Fs.lean take the standard model of floating-point arithmetic as a hypothesis (structure FlModel u: each + - x returns exact*(1+d), |d| <= u; FlModelU adds an absolute underflow term; FlModelX: representable exact results are returned exactly; max/min exact). That IEEE binary32/64 satisfies it with u = 2^-24 / 2^-53 absent overflow is assumed (Higham, Accuracy and Stability of Numerical Algorithms, Thm 2.2), not proved; the bit-level behaviour incl. NaN/inf is tied by the fbiquad correspondence over Lean Float32/Float, which trusts the Lean runtime's float primitives to be IEEE."],
     "modules": ["C15", "C15spec", "C15F", "C15Fc", "C15Fs"],
     "families": ["hbf"],
     "n_quick": 3000, "n_thorough": 30000,
@@ -278,15 +278,18 @@ PROPS["C07"] = {
     "rule": "admissible (dt2, sf, sp, P, offset) with P at both ends, powers of two +-1 and random; update instants aligned to 2^dt2; sf-dt2 <= 13 (17 thorough)",
 }
 PROPS["C08"] = {
+    "trusted_extra": ["Props/C03F.lean, Props/C04F.lean, Props/C05q.lean (QuantFl), Props/C08F.lean (FlModelD / FlModelDX: with division / with the exactness law), Props/C15F.lean, Props/C15Fc.lean and Props/C15Fs.lean take the standard model of floating-point arithmetic as a hypothesis (structure FlModel u: each + - x returns exact*(1+d), |d| <= u; FlModelU adds an absolute underflow term; FlModelX: representable exact results are returned exactly; max/min exact). That IEEE binary32/64 satisfies it with u = 2^-24 / 2^-53 absent overflow is assumed (Higham, Accuracy and Stability of Numerical Algorithms, Thm 2.2), not proved; the bit-level behaviour incl. NaN/inf is tied by the fbiquad correspondence over Lean Float32/Float, which trusts the Lean runtime's float primitives to be IEEE."],
+    "modules": ["C08", "C08F"],
     "families": ["pid", "repr"],
     "n_quick": 60000, "n_thorough": 600000,
     "clauses_proved": [
         "over any field: the built coefficients realise (g0+g1 D+g2 D^2)/(l0+l1 D+l2 D^2), D = 1 - z^-1, at every (complex) frequency, with g_i the period-scaled gains and l_i = g_i/limit_i, l = 1 for P (pid_transfer, pid_transfer_ratio, pid_transfer_complex, pid_transfer_signs, pid_gains_order_P/I/I2, pid_lsum_ge_one)",
         "no limits: feedback coefficients are exactly the integrator kernel for ANY coefficient type and quantiser with quantize 0 = 0, quantize 1 = ONE; -2*ONE representable (pid_exact_kernel, pid_exact_kernel_int)",
         "order P with a lone proportional gain builds exactly [quantize g, 0, 0, 0, 0] (pid_order_p_lone_gain)",
+        "FLOAT EVALUATION (Props/C08F.lean), the builder model over the reals with rounded + - x / (structure FlModelD u, the standard model with a division law; relative-error calculus fpidRel closed under products, quotients and sums of non-negative terms): every period-scaled gain and normalised limit carries at most 6 roundings (fpid_gl_error, exact slots fpid_gl_exact_slots), the normalisation 1/(l0+l1+l2) at most 10, every value handed to quantize at most 17 (fpid_gain_error), hence float coefficients are within g21 times the sum of the magnitudes of their terms of the exact rational coefficients of Props/C08.lean (fpid_float_coeff_error) and each fixed-point quantised gain is within g17 |exact| 2^q + 1 LSB of quantizeR of the exact value (fpid_fixed_gain_error, fpid_quantizeR_lipschitz); numbers: g17 <= 18 u, g21 <= 22 u for u = 2^-24, 2^-53 (fpid_gamma_numbers). The exact integrator kernel without limits holds for every coefficient type under the IEEE exactness law (operations with representable exact results are exact: fpid_exact_kernel_rounded) and is FALSE under the bare standard model (fpid_exact_kernel_needs_exactness: a model that rounds 0+1 gives a1 = -4/9) - so that clause genuinely depends on IEEE exactness, which the correspondence (exact equality of a1, a2 for the integer types when no limit is set) checks on the real arithmetic",
     ],
     "clauses_explored": [
-        "f32/f64/fixed-point evaluation of the builder (IEEE rounding, powi) against the proved rational formula; Pid::build's copysign / NaN-to-infinity glue",
+        "the real IEEE arithmetic and powi (the rounding theorems of C08F are about the standard model with the model's 1/((1*p)*p) for powi); Pid::build's copysign / NaN-to-infinity glue (modelled in the driver, tied by correspondence)",
     ],
     "level_text": "The transfer-function identity and the exact-kernel clause are theorems over exact field arithmetic and an abstract quantiser; floating-point rounding is outside the theorems and is tied by tolerance correspondence and explored natively.",
     "level_note": "Model: pidGl, pidBuild (IdspModel/Model/Coeff.lean), an unset limit is `none` (g/inf = 0). Pid::build (scaling, copysign, NaN limit = infinity, set_input_offset, limits) and BiquadRepr::Ba::build are modelled in the driver only (Lean Float, op family repr): translation-validated glue, no theorems; PidBuilder::<f32> through float32Ops (op f_pid32, compared per gain). BiquadRepr::{Pid, Filter, Raw, default} are driven through the enum; FilterRepr's private leaves are set through miniconf's TreeAny interface (op f_filterrepr). Not modelled: serde/miniconf (de)serialisation itself.",
